@@ -15,7 +15,7 @@ PROP = "C13"
 HEADLINE = ["scenarios", "fault_cases", "faults_fired", "rejected_with_simulator_id", "offender_types_time-based",
             "offender_types_event-based", "offender_types_hybrid"]
 
-NEXT_FAULTS = ["float", "float_frac", "str", "list", "negative", "equal", "less"]
+NEXT_FAULTS = ["float", "float_frac", "str", "list", "negative", "equal", "less", "float_until", "float_beyond"]
 OUT_FAULTS = ["otime_minus1", "otime_neg"]
 
 
@@ -158,7 +158,7 @@ def evidence(m, tier, seed):
     return {"level": "fault_enumeration", "coverage": {
         "rule": "for every generated scenario a fault-free run counts each simulator's steps; then every (simulator, "
                 "step index < min(steps, cap), malformed value) is run once under a rotating schedule policy: next "
-                "step in {float, fractional float, str, list, negative, == time, < time}, None from a time-based "
+                "step in {float, fractional float, str, list, negative, == time, < time, float(until), until+0.5}, None from a time-based "
                 "simulator, output time in {time-1, -1}; expected: run() raises an error whose text contains the "
                 "simulator id, the offender gets no further request, nobody gets a request after finalize, the step "
                 "set/order of everybody stays consistent; distinct_nontrivial = distinct (scenario, offender, step, "
